@@ -2,111 +2,9 @@
   C13 — lemmas towards `ok (runCase …) = true`: facts about the table's entries, the listener
   model on them, timing of `_on_data`, the announcer's cycle.
 -/
-import Upnp.Lemmas.C13Dispatch
+import Upnp.Lemmas.C13Compose
 import Upnp.Model.C13Run
 namespace Upnp.C13
-
-/-! ### entries of the table -/
-
-structure ExpOk (e : Exp) : Prop where
-  dev : wfUdn e.dev = true
-  usn : e.usn = e.dev ∨ ∃ x, e.usn = e.dev ++ sep ++ x
-  st : e.st ≠ []
-
-theorem ne_nil_of_wfUdn {u : Str} (h : wfUdn u = true) : u ≠ [] := by
-  rintro rfl; revert h; decide
-
-theorem ne_nil_of_parts {s : Str} (h : (typeParts (lower s)).isSome = true) : s ≠ [] := by
-  rintro rfl; revert h; decide
-
-theorem rootDevice_ne_nil : rootDevice ≠ [] := by decide
-
-theorem expAll_ok {t : DevTree} (hw : WF t) : ∀ e ∈ expAll t, ExpOk e := by
-  intro e he
-  simp only [expAll, List.mem_cons, List.mem_append, List.mem_flatMap, List.mem_map,
-    List.not_mem_nil, or_false] at he
-  rcases he with rfl | ⟨d, hd, rfl | rfl⟩ | ⟨s, hs, rfl⟩
-  · exact ⟨hw.root, Or.inr ⟨_, rfl⟩, rootDevice_ne_nil⟩
-  · exact ⟨hw.udn d hd, Or.inl rfl, ne_nil_of_wfUdn (hw.udn d hd)⟩
-  · exact ⟨hw.udn d hd, Or.inr ⟨_, rfl⟩, ne_nil_of_parts (hw.dtype d hd)⟩
-  · obtain ⟨d, hd, ho, _⟩ := mem_allServices.mp hs
-    exact ⟨by simp only [expSvc]; rw [ho]; exact hw.udn d hd, Or.inr ⟨_, rfl⟩, ne_nil_of_parts (hw.stype s hs)⟩
-
-theorem expected_ok {t : DevTree} (hw : WF t) (st : Str) : ∀ e ∈ (expected t st).1, ExpOk e := by
-  intro e he
-  unfold expected at he
-  simp only at he
-  split at he
-  · exact expAll_ok hw e he
-  · split at he
-    · simp only [List.mem_singleton] at he
-      subst he
-      exact ⟨hw.root, Or.inr ⟨_, rfl⟩, rootDevice_ne_nil⟩
-    · simp only [List.mem_append, List.mem_map, List.mem_filter] at he
-      rcases he with (⟨d, ⟨hd, _⟩, rfl⟩ | ⟨d, ⟨hd, hm⟩, rfl⟩) | ⟨s, ⟨hs, hm⟩, rfl⟩
-      · exact ⟨hw.udn d hd, Or.inl rfl, ne_nil_of_wfUdn (hw.udn d hd)⟩
-      · refine ⟨hw.udn d hd, Or.inr ⟨_, rfl⟩, ?_⟩
-        have := typeMatches_ne_nil hm
-        simp only [expDevType]; intro h; apply this; rw [h]; rfl
-      · obtain ⟨d, hd, ho, _⟩ := mem_allServices.mp hs
-        refine ⟨by simp only [expSvc]; rw [ho]; exact hw.udn d hd, Or.inr ⟨_, rfl⟩, ?_⟩
-        have := typeMatches_ne_nil hm
-        simp only [expSvc]; intro h; apply this; rw [h]; rfl
-
-theorem sep_eq : sep = [':', ':'] := by decide
-
-theorem ExpOk.usn_prefix {e : Exp} (h : ExpOk e) : startsWith e.usn e.dev = true := by
-  rcases h.usn with h | ⟨x, h⟩
-  · rw [h]; exact startsWith_self _
-  · rw [h, List.append_assoc]; exact startsWith_append _ _
-
-/-- **USN → UDN**: the listener's `udn_from_usn` recovers the described device's UDN -/
-theorem ExpOk.udn_of_usn {e : Exp} (h : ExpOk e) : udnFromUsn e.usn = some e.dev := by
-  have hd := h.dev
-  simp only [wfUdn, Bool.and_eq_true] at hd
-  unfold udnFromUsn
-  rcases h.usn with hu | ⟨x, hu⟩
-  · rw [hu, if_pos hd.1, beforeSep2_self _ hd.2]
-  · rw [hu]
-    have : startsWith (lower (e.dev ++ sep ++ x)) "uuid:".toList = true := by
-      rw [List.append_assoc, lower_append]; exact startsWith_trans_append _ hd.1
-    rw [if_pos this, List.append_assoc, sep_eq]
-    simp only [List.cons_append, List.nil_append]
-    rw [beforeSep2_append _ _ hd.2]
-
-theorem hearSearch_ok {e : Exp} (h : ExpOk e) {st loc : Str} (hst : st ≠ []) (hl : validLocation loc = true) :
-    hearSearch st e.usn loc = ⟨true, e.dev, st, loc, 0⟩ := by
-  unfold hearSearch
-  rw [h.udn_of_usn]
-  have h1 : e.dev.isEmpty = false := by
-    cases hh : e.dev with
-    | nil => exact absurd hh (ne_nil_of_wfUdn h.dev)
-    | cons _ _ => rfl
-  have h2 : st.isEmpty = false := by
-    cases st with
-    | nil => exact absurd rfl hst
-    | cons _ _ => rfl
-  simp [h1, h2, hl]
-
-theorem hearAlive_ok {e : Exp} (h : ExpOk e) {loc : Str} (hl : validLocation loc = true) :
-    hearAlive e.st e.usn loc = ⟨true, e.dev, e.st, loc, 1⟩ := by
-  unfold hearAlive
-  rw [h.udn_of_usn]
-  have h1 : e.dev.isEmpty = false := by
-    cases hh : e.dev with
-    | nil => exact absurd hh (ne_nil_of_wfUdn h.dev)
-    | cons _ _ => rfl
-  have h2 : e.st.isEmpty = false := by
-    cases hh : e.st with
-    | nil => exact absurd hh h.st
-    | cons _ _ => rfl
-  simp [h1, h2, hl]
-
-theorem hearByebye_ok {e : Exp} (h : ExpOk e) {loc : Str} (hl : validLocation loc = true) :
-    hearByebye e.st e.usn loc = ⟨true, e.dev, e.st, loc, 2⟩ := by
-  unfold hearByebye
-  rw [hearAlive_ok h hl]
-  rfl
 
 /-! ### timing of `_on_data` -/
 
@@ -170,7 +68,7 @@ theorem pickJitter_spec {lo hi : Int} (h : lo < hi) (sel : Option Nat) :
 theorem answer_spec {k : Consts} (hk : ConstsOk k) (t : DevTree) (now : Int) (r : Req) (sel : Option Nat)
     (hr : isMSearch r = true) :
     ∃ sends, answer k t now r sel = some sends ∧
-      sends.map (·.msg) = buildResponses t (r.st.getD []) ∧
+      sends.map (·.msg) = buildResponses t k.alwaysRoot (r.st.getD []) ∧
       ∀ s ∈ sends, now ≤ s.time ∧ s.time ≤ now + windowMs r.mx := by
   simp only [isMSearch, Bool.and_eq_true, beq_iff_eq] at hr
   have hcond : ¬ (r.line ≠ mSearchLine ∨ r.man ≠ some ssdpDiscover) := by
@@ -178,7 +76,7 @@ theorem answer_spec {k : Consts} (hk : ConstsOk k) (t : DevTree) (now : Int) (r 
   unfold answer onData
   rw [if_neg hcond]
   simp only
-  cases hb : buildResponses t (r.st.getD []) with
+  cases hb : buildResponses t k.alwaysRoot (r.st.getD []) with
   | nil => exact ⟨[], rfl, rfl, by simp⟩
   | cons m ms =>
     simp only [hk.guard, hk.once, Bool.false_eq_true, if_false]
@@ -223,14 +121,15 @@ theorem ne_nil_of_normKey {ci : Bool} {a b u v : Str} (h : normKey ci a u = norm
     exact lower_nil_iff.mp this.symm
 
 /-- every message `_build_responses` produces realises an entry of the table for that target -/
-theorem response_entry {t : DevTree} (hw : WF t) (st : Str) {m : Msg} (hm : m ∈ buildResponses t st) :
-    ∃ e ∈ (expected t st).1, ExpOk e ∧ m.usn = e.usn ∧ m.st ≠ [] ∧
-      expKey (expected t st).2 e = msgKey (expected t st).2 m := by
-  have hperm := dispatch_perm hw st
-  have hkey : msgKey (expected t st).2 m ∈ (buildResponses t st).map (msgKey (expected t st).2) :=
+theorem response_entry {t : DevTree} (hw : WF t) (ar : Bool) (st : Str) {m : Msg}
+    (hm : m ∈ buildResponses t ar st) :
+    ∃ e ∈ (expected t ar st).1, ExpOk e ∧ m.usn = e.usn ∧ m.st ≠ [] ∧
+      expKey (expected t ar st).2 e = msgKey (expected t ar st).2 m := by
+  have hperm := dispatch_perm hw ar st
+  have hkey : msgKey (expected t ar st).2 m ∈ (buildResponses t ar st).map (msgKey (expected t ar st).2) :=
     List.mem_map.mpr ⟨m, hm, rfl⟩
   obtain ⟨e, he, hek⟩ := List.mem_map.mp (hperm.mem_iff.mp hkey)
-  have heok := expected_ok hw st e he
+  have heok := expected_ok hw ar st e he
   obtain ⟨hst, husn⟩ := ne_nil_of_normKey (a := m.st) (u := m.usn) hek.symm heok.st
   exact ⟨e, he, heok, husn, hst, hek⟩
 
@@ -241,11 +140,11 @@ theorem okSearch_run {k : Consts} (hk : ConstsOk k) {t : DevTree} (hw : WF t) (c
   unfold okSearch
   by_cases hr : isMSearch i.req = true
   · obtain ⟨sends, hans, hmsgs, htime⟩ := answer_spec hk t i.time i.req i.sel hr
-    have hperm := dispatch_perm hw (i.req.st.getD [])
+    have hperm := dispatch_perm hw k.alwaysRoot (i.req.st.getD [])
     simp only [runSearch, runCase, hans, Option.isNone_some, Option.getD_some, Bool.not_false, Bool.true_and,
       Bool.or_eq_true, Bool.not_eq_true']
     right
-    rcases hE : expected t (i.req.st.getD []) with ⟨exp, ci⟩
+    rcases hE : expected t k.alwaysRoot (i.req.st.getD []) with ⟨exp, ci⟩
     rw [hE] at hperm
     simp only at hperm ⊢
     rw [Bool.and_eq_true]
@@ -260,19 +159,19 @@ theorem okSearch_run {k : Consts} (hk : ConstsOk k) {t : DevTree} (hw : WF t) (c
       obtain ⟨s, hs, rfl⟩ := hm
       obtain ⟨ht1, ht2⟩ := htime s hs
       -- the table entry this message realises
-      have hkey : msgKey ci s.msg ∈ (buildResponses t (i.req.st.getD [])).map (msgKey ci) := by
+      have hkey : msgKey ci s.msg ∈ (buildResponses t k.alwaysRoot (i.req.st.getD [])).map (msgKey ci) := by
         rw [← hmsgs, List.map_map]; exact List.mem_map.mpr ⟨s, hs, rfl⟩
       have hkey' := hperm.mem_iff.mp hkey
       obtain ⟨e, he, hek⟩ := List.mem_map.mp hkey'
       have heok : ExpOk e := by
-        have := expected_ok hw (i.req.st.getD []) e (by rw [hE]; exact he)
+        have := expected_ok hw k.alwaysRoot (i.req.st.getD []) e (by rw [hE]; exact he)
         exact this
       obtain ⟨hst, husn⟩ := ne_nil_of_normKey (a := s.msg.st) (u := s.msg.usn) hek.symm heok.st
       simp only [obsResponse, Bool.and_eq_true, beq_iff_eq, decide_eq_true_eq, List.any_eq_true, beq_self_eq_true,
         true_and, List.isEmpty_nil, and_true]
       refine ⟨⟨decide_eq_true ht1, decide_eq_true ht2⟩, e, he, ⟨hek, ?_⟩, ?_⟩
       · rw [husn]; exact heok.usn_prefix
-      · rw [husn, hearSearch_ok heok hst hl]
+      · rw [hearResponse_ok heok cfg husn hst hl]
         simp [heardOk]
   · simp only [runSearch, Bool.or_eq_true, Bool.not_eq_true']; left; simpa using hr
 
